@@ -549,6 +549,371 @@ theorem duplicate_case_first (env : Env) (pre post : List STopM) (kw : Tok) (md 
   simp only [violTops, violTop, violBody, violL_append env _ false false true bpre _ (List.cons_ne_nil _ _), hb,
     violL, violS, h, orV_none_left, orV_some_left, Option.map_some]
 
+/-! ## the first violation as a computable function -/
+
+/-- **The first violation of a file, computed** (the parser-stage checker, then the model's two duplicate scans
+on the reference elaboration, then the first label clash). -/
+def firstViolation? (env : Env) (o : Opts) (eofT : Tok) (ts : List STopM) : Option FViol :=
+  match violTops env [] ts with
+  | some v => some (.parse v)
+  | none =>
+    match elabTopsM env ts (initState eofT) with
+    | .error _ => none
+    | .ok (tops, s) =>
+      match firstDuplicateText (s.inlineTexts ++ s.textStatements) [] with
+      | some t => some (.dupText t)
+      | none =>
+        match firstDuplicateMovement (tops ++ s.inlineMovements.map Top.movement) [] with
+        | some (tok, name) => some (.dupMovement tok name)
+        | none => (progClash o (programOf tops s)).map FViol.label
+
+theorem violTops_none_of_elab {env : Env} {eofT : Tok} {ts : List STopM} {tops : List Top} {s : PState}
+    (he : elabTopsM env ts (initState eofT) = .ok (tops, s)) : violTops env [] ts = none := by
+  have h0 := elab_init_viol env eofT ts
+  rw [he] at h0
+  cases hv : violTops env [] ts with
+  | none => rfl
+  | some v => rw [hv] at h0; cases h0
+
+/-- `FirstViolation` is what `firstViolation?` computes; in particular the first violation is unique. -/
+theorem firstViolation_iff (env : Env) (o : Opts) (eofT : Tok) (ts : List STopM) (v : FViol) :
+    FirstViolation env o eofT ts v ↔ firstViolation? env o eofT ts = some v := by
+  constructor
+  · intro h
+    cases h with
+    | parse v h => simp only [firstViolation?, h]
+    | dupText tops s t he h =>
+      simp only [firstViolation?, violTops_none_of_elab he, he, (firstDuplicateText_iff _ t).2 h]
+    | dupMovement tops s tok name he hT h =>
+      have h1 : firstDuplicateText (s.inlineTexts ++ s.textStatements) [] = none :=
+        (C20.firstDuplicateText_none_iff _ []).2 ⟨hT, by simp⟩
+      have h2 : firstDuplicateMovement (tops ++ s.inlineMovements.map Top.movement) [] = some (tok, name) := by
+        rw [firstDuplicateMovement_iff, movementsOf_append, movementsOf_movements]
+        exact h
+      simp only [firstViolation?, violTops_none_of_elab he, he, h1, h2]
+    | label tops s v he hT hM h =>
+      have h1 : firstDuplicateText (s.inlineTexts ++ s.textStatements) [] = none :=
+        (C20.firstDuplicateText_none_iff _ []).2 ⟨hT, by simp⟩
+      have h2 : firstDuplicateMovement (tops ++ s.inlineMovements.map Top.movement) [] = none := by
+        rw [firstDuplicateMovement_none_iff, mvNames_append, mvNames_movements]
+        exact ⟨hM, by simp⟩
+      simp only [firstViolation?, violTops_none_of_elab he, he, h1, h2, h, Option.map_some]
+  · intro h
+    unfold firstViolation? at h
+    cases hv : violTops env [] ts with
+    | some w =>
+      rw [hv] at h
+      simp only [Option.some.injEq] at h
+      subst h
+      exact .parse w hv
+    | none =>
+      rw [hv] at h
+      simp only at h
+      cases he : elabTopsM env ts (initState eofT) with
+      | error f => rw [he] at h; cases h
+      | ok q =>
+        obtain ⟨tops, s⟩ := q
+        rw [he] at h
+        simp only at h
+        cases h1 : firstDuplicateText (s.inlineTexts ++ s.textStatements) [] with
+        | some t =>
+          rw [h1] at h
+          simp only [Option.some.injEq] at h
+          subst h
+          exact .dupText tops s t he ((firstDuplicateText_iff _ t).1 h1)
+        | none =>
+          rw [h1] at h
+          simp only at h
+          have hT : (textNames s).Nodup := ((C20.firstDuplicateText_none_iff _ []).1 h1).1
+          cases h2 : firstDuplicateMovement (tops ++ s.inlineMovements.map Top.movement) [] with
+          | some q =>
+            obtain ⟨tok, name⟩ := q
+            rw [h2] at h
+            simp only [Option.some.injEq] at h
+            subst h
+            have := (firstDuplicateMovement_iff _ tok name).1 h2
+            rw [movementsOf_append, movementsOf_movements] at this
+            exact .dupMovement tops s tok name he hT this
+          | none =>
+            rw [h2] at h
+            simp only at h
+            have hM : (allMvNames tops s).Nodup := by
+              have := ((firstDuplicateMovement_none_iff _ []).1 h2).1
+              rw [mvNames_append, mvNames_movements] at this
+              exact this
+            cases hc : progClash o (programOf tops s) with
+            | none => rw [hc] at h; cases h
+            | some w =>
+              rw [hc] at h
+              simp only [Option.map_some, Option.some.injEq] at h
+              subst h
+              exact .label tops s w he hT hM hc
+
+theorem firstViolation_unique (env : Env) (o : Opts) (eofT : Tok) (ts : List STopM) (v w : FViol)
+    (hv : FirstViolation env o eofT ts v) (hw : FirstViolation env o eofT ts w) : v = w := by
+  rw [firstViolation_iff] at hv hw
+  rw [hv] at hw
+  injection hw
+
+/-- **Compilation of a file of the grammar, as a function of its first violation.** -/
+theorem compile_by_catalogue (env : Env) (o : Opts) (eofT : Tok) (heof : eofT.type = .EOF) (ts : List STopM)
+    (hwf : TWFM ts) :
+    match firstViolation? env o eofT ts with
+    | some v => compileToks env o (printTopsM ts ++ [eofT]) = .error v.err
+    | none => ∃ L, compileToks env o (printTopsM ts ++ [eofT]) = .ok L := by
+  cases hf : firstViolation? env o eofT ts with
+  | some v => exact (violation_rejected env o eofT heof ts hwf v ((firstViolation_iff env o eofT ts v).2 hf)).1
+  | none =>
+    cases hc : compileToks env o (printTopsM ts ++ [eofT]) with
+    | ok L => exact ⟨L, rfl⟩
+    | error e =>
+      obtain ⟨v, hv, _⟩ := rejected_only_for_documented env o eofT heof ts hwf e hc
+      rw [firstViolation_iff, hf] at hv
+      cases hv
+
+/-! ## non-vacuity: one small file per violation kind -/
+section Example
+
+private def lp : Tok := tk .LPAREN "("
+private def rp : Tok := tk .RPAREN ")"
+private def lb : Tok := tk .LBRACE "{"
+private def rb : Tok := tk .RBRACE "}"
+private def colon : Tok := tk .COLON ":"
+private def z : Nat → TPos := fun _ => {}
+private def cond (lf : Leaf) : SCond := .plain (.one (.one (.leaf lf)))
+/-- the final token -/
+def eofT : Tok := tk .EOF ""
+/-- emitter options of the examples: chunk order not optimised (`optimizeChunkOrder` does not reduce under
+`decide`), no line markers -/
+def exO : Opts := { optimize := false }
+/-- the `ParseError` the pipeline reports, if it fails -/
+def reportedOf {α : Type} : Except CErr α → Option PErr
+  | .error c => c.reported
+  | .ok _ => none
+
+private def script (name : String) (body : List SStmt) : STopM :=
+  .base (.script (tk .SCRIPT "script") .absent (tk .IDENT name) lb body rb)
+private def switchV (cases : List SCase) (sw : Tok := tk .SWITCH "switch") (rb' : Tok := rb) : SStmt :=
+  .switch_ sw lp (tk .VAR "var") lp [tk .IDENT "V"] rp rp lb cases rb'
+private def foo : SStmt := .cmd0 (tk .IDENT "foo")
+private def msgbox (t : String) : SStmt := .cmdI (tk .IDENT "msgbox") lp [.str (tk .STRING t)] [] rp
+
+/-- the instantiation pattern: the first violation computed by `decide`, the error from `violation_rejected` -/
+theorem by_catalogue {ts : List STopM} {v : FViol} (hwf : TWFM ts) (h : firstViolation? {} exO eofT ts = some v) :
+    compileToks {} exO (printTopsM ts ++ [eofT]) = .error v.err :=
+  (violation_rejected {} exO eofT rfl ts hwf v ((firstViolation_iff {} exO eofT ts v).2 h)).1
+
+/-! ### break outside: `script A { foo  if (flag(F)) { break } }` (the `break` on line 3, columns 4–9) -/
+def tBreak : Tok := tkp ⟨3, 4, 4, 3, 9, 9⟩ .BREAK "break"
+def exBreak : List STopM :=
+  [script "A" [foo, .ite (tk .IF "if") lp (cond (.flagBare z false "F")) rp lb [.brk tBreak] rb [] .none]]
+
+-- sanity check (evaluation, not a proof): the printed tokens are what the model lexer produces
+#guard (Lexer.lexAll "script A { foo if (flag(F)) { break } }".toList).map (fun t => (t.type, t.lit)) ==
+  (printTopsM exBreak ++ [eofT]).map (fun t => (t.type, t.lit))
+
+/-- by evaluation of the model pipeline -/
+example : reportedOf (compileToks {} exO (printTopsM exBreak ++ [eofT])) =
+    some ⟨3, 3, 4, 4, 9, 9, "'break' statement outside of any break-able scope"⟩ := by decide
+/-- by the theorem -/
+example : compileToks {} exO (printTopsM exBreak ++ [eofT]) =
+    .error (.parse (newParseError tBreak "'break' statement outside of any break-able scope")) :=
+  by_catalogue (v := .parse (.stmt (.breakOutside tBreak))) (by decide) (by decide)
+/-- … and as an instance of `break_outside_first` (the body's earlier statement `foo` is violation-free; the
+`break` here is nested, so the instance is for the flat file `script A { foo break }`) -/
+example : violTops {} [] ([] ++ .base (.script (tk .SCRIPT "script") .absent (tk .IDENT "A") lb
+    ([foo] ++ .brk tBreak :: []) rb) :: []) = some (.stmt (.breakOutside tBreak)) :=
+  break_outside_first {} [] [] _ _ _ _ _ [foo] [] tBreak rfl rfl
+
+/-! ### continue outside: `script A { switch (var(V)) { case 1: continue } }` (a switch is not continue-able) -/
+def tCont : Tok := tkp ⟨2, 10, 10, 2, 18, 18⟩ .CONTINUE "continue"
+def exCont : List STopM := [script "A" [switchV [.case (tk .CASE "case") [tk .INT "1"] colon [.cont tCont]]]]
+
+example : reportedOf (compileToks {} exO (printTopsM exCont ++ [eofT])) =
+    some ⟨2, 2, 10, 10, 18, 18, "'continue' statement outside of any continue-able scope"⟩ := by decide
+example : compileToks {} exO (printTopsM exCont ++ [eofT]) =
+    .error (.parse (newParseError tCont "'continue' statement outside of any continue-able scope")) :=
+  by_catalogue (v := .parse (.stmt (.continueOutside tCont))) (by decide) (by decide)
+
+/-! ### continue not last: `script A { while { continue foo } }` -/
+def exContNL : List STopM := [script "A" [.whileInf (tk .WHILE "while") lb [.cont tCont, foo] rb]]
+
+example : reportedOf (compileToks {} exO (printTopsM exContNL ++ [eofT])) =
+    some ⟨2, 2, 10, 10, 18, 18, "'continue' must be the last statement in block scope"⟩ := by decide
+example : compileToks {} exO (printTopsM exContNL ++ [eofT]) =
+    .error (.parse (newParseError tCont "'continue' must be the last statement in block scope")) :=
+  by_catalogue (v := .parse (.stmt (.continueNotLast tCont))) (by decide) (by decide)
+
+/-! ### duplicate case, equal only AFTER constant substitution:
+`const N = 5  script A { switch (var(V)) { case N: foo  case 5: foo } }` -/
+def tCase : Tok := tkp ⟨4, 2, 2, 4, 6, 6⟩ .CASE "case"
+def tColon : Tok := tkp ⟨4, 8, 8, 4, 9, 9⟩ .COLON ":"
+def exDupCase : List STopM :=
+  [.base (.const (tk .CONST "const") (tk .IDENT "N") (tk .ASSIGN "=") [tk .INT "5"]),
+   script "A" [switchV [.case (tk .CASE "case") [tk .IDENT "N"] colon [foo], .case tCase [tk .INT "5"] tColon [foo]]]]
+
+example : reportedOf (compileToks {} exO (printTopsM exDupCase ++ [eofT])) =
+    some ⟨4, 4, 2, 2, 9, 9, "duplicate switch cases detected for case '5'"⟩ := by decide
+example : compileToks {} exO (printTopsM exDupCase ++ [eofT]) =
+    .error (.parse (newRangeParseError tCase tColon "duplicate switch cases detected for case '5'")) :=
+  by_catalogue (v := .parse (.stmt (.duplicateCase tCase tColon "5"))) (by decide) (by decide)
+
+/-! ### second default: `script A { switch (var(V)) { default: foo  default: foo } }` -/
+def tDflt : Tok := tkp ⟨5, 2, 2, 5, 9, 9⟩ .DEFAULT "default"
+def exDflt : List STopM :=
+  [script "A" [switchV [.dflt (tk .DEFAULT "default") colon [foo], .dflt tDflt colon [foo]]]]
+
+example : reportedOf (compileToks {} exO (printTopsM exDflt ++ [eofT])) =
+    some ⟨5, 5, 2, 2, 9, 9,
+      "multiple `default` cases found in switch statement. Only one `default` case is allowed"⟩ := by decide
+example : compileToks {} exO (printTopsM exDflt ++ [eofT]) =
+    .error (.parse (newParseError tDflt
+      "multiple `default` cases found in switch statement. Only one `default` case is allowed")) :=
+  by_catalogue (v := .parse (.stmt (.secondDefault tDflt))) (by decide) (by decide)
+
+/-! ### switch without cases: `script A { switch (var(V)) { } }` (range: `switch` … `}`) -/
+def tSw : Tok := tkp ⟨2, 2, 2, 2, 8, 8⟩ .SWITCH "switch"
+def tSwRb : Tok := tkp ⟨3, 2, 2, 3, 3, 3⟩ .RBRACE "}"
+def exEmptySw : List STopM := [script "A" [switchV [] tSw tSwRb]]
+
+example : reportedOf (compileToks {} exO (printTopsM exEmptySw ++ [eofT])) =
+    some ⟨2, 3, 2, 2, 3, 3, "switch statement has no cases or default case"⟩ := by decide
+example : compileToks {} exO (printTopsM exEmptySw ++ [eofT]) =
+    .error (.parse (newRangeParseError tSw tSwRb "switch statement has no cases or default case")) :=
+  by_catalogue (v := .parse (.stmt (.emptySwitch tSw tSwRb))) (by decide) (by decide)
+
+/-! ### redefined constant: `const N = 5  const N = 6  script A { foo }` (on the second name token) -/
+def tN2 : Tok := tkp ⟨2, 6, 6, 2, 7, 7⟩ .IDENT "N"
+def exConst : List STopM :=
+  [.base (.const (tk .CONST "const") (tk .IDENT "N") (tk .ASSIGN "=") [tk .INT "5"]),
+   .base (.const (tk .CONST "const") tN2 (tk .ASSIGN "=") [tk .INT "6"]),
+   script "A" [foo]]
+
+example : reportedOf (compileToks {} exO (printTopsM exConst ++ [eofT])) =
+    some ⟨2, 2, 6, 6, 7, 7, "duplicate const 'N'. Must use unique const names"⟩ := by decide
+example : compileToks {} exO (printTopsM exConst ++ [eofT]) =
+    .error (.parse (newParseError tN2 "duplicate const 'N'. Must use unique const names")) :=
+  by_catalogue (v := .parse (.constRedefined tN2)) (by decide) (by decide)
+/-- … as an instance of `const_redefined_first` -/
+example : violTops {} [] ([.base (.const (tk .CONST "const") (tk .IDENT "N") (tk .ASSIGN "=") [tk .INT "5"])] ++
+    .base (.const (tk .CONST "const") tN2 (tk .ASSIGN "=") [tk .INT "6"]) :: [script "A" [foo]]) =
+      some (.constRedefined tN2) :=
+  const_redefined_first {} _ _ _ tN2 _ _ (by decide) (by decide)
+
+/-! ### a text named like a hoisted text: `script A { msgbox("Hi") }  text A_Text_0 { "x" }`
+(reported on the `text` keyword of the statement) -/
+def tText : Tok := tkp ⟨2, 0, 0, 2, 4, 4⟩ .TEXT "text"
+def exDupText : List STopM :=
+  [script "A" [msgbox "Hi"],
+   .base (.text tText .absent (tk .IDENT "A_Text_0") lb (.plain (tk .STRING "x")) rb)]
+
+example : reportedOf (compileToks {} exO (printTopsM exDupText ++ [eofT])) =
+    some ⟨2, 2, 0, 0, 4, 4, "duplicate text label 'A_Text_0'. Choose a unique label that won't clash with the auto-generated text labels"⟩ := by
+  decide
+example : ∃ t : Text, t.tok = tText ∧ t.name = "A_Text_0" ∧
+    compileToks {} exO (printTopsM exDupText ++ [eofT]) = .error (.parse (dupTextErr t)) :=
+  ⟨_, rfl, rfl, by_catalogue (v := .dupText (C15b.mkText tText (tk .IDENT "A_Text_0") .GLOBAL ("x$", "")))
+    (by decide) (by decide)⟩
+
+/-! ### two `movement` statements of one name: REPORTED ON THE FIRST ONE (line 1), not on the second (line 2) -/
+def tMv1 : Tok := tkp ⟨1, 0, 0, 1, 8, 8⟩ .MOVEMENT "movement"
+def tMv2 : Tok := tkp ⟨2, 0, 0, 2, 8, 8⟩ .MOVEMENT "movement"
+def exMvMv : List STopM :=
+  [.base (.movement tMv1 .absent (tk .IDENT "M") lb [.step (tk .IDENT "walk_up")] rb),
+   .base (.movement tMv2 .absent (tk .IDENT "M") lb [.step (tk .IDENT "walk_down")] rb)]
+
+example : reportedOf (compileToks {} exO (printTopsM exMvMv ++ [eofT])) =
+    some ⟨1, 1, 0, 0, 8, 8, "duplicate movement label 'M'. Choose a unique label that won't clash with the auto-generated movement labels"⟩ := by
+  decide
+example : compileToks {} exO (printTopsM exMvMv ++ [eofT]) = .error (.parse (dupMovementErr tMv1 "M")) :=
+  by_catalogue (v := .dupMovement tMv1 "M") (by decide) (by decide)
+
+/-! ### a movement named like a hoisted movement:
+`movement A_Movement_0 { walk_up }  script A { applymovement(1, moves(walk_down)) }` -/
+def exMvHoist : List STopM :=
+  [.base (.movement tMv1 .absent (tk .IDENT "A_Movement_0") lb [.step (tk .IDENT "walk_up")] rb),
+   script "A" [.cmdI (tk .IDENT "applymovement") lp [.tok (tk .INT "1")]
+     [(tk .COMMA ",", [.moves (tk .MOVES "moves") lp [.step (tk .IDENT "walk_down")] rp])] rp]]
+
+example : reportedOf (compileToks {} exO (printTopsM exMvHoist ++ [eofT])) =
+    some ⟨1, 1, 0, 0, 8, 8, "duplicate movement label 'A_Movement_0'. Choose a unique label that won't clash with the auto-generated movement labels"⟩ := by
+  decide
+example : compileToks {} exO (printTopsM exMvHoist ++ [eofT]) =
+    .error (.parse (dupMovementErr tMv1 "A_Movement_0")) :=
+  by_catalogue (v := .dupMovement tMv1 "A_Movement_0") (by decide) (by decide)
+
+/-! ### a label named like a generated chunk label of its script:
+`script S { if (flag(F)) { foo }  S_1: }` (`S_1` is the chunk of the statements after the `if`) -/
+def tLbl : Tok := tkp ⟨4, 2, 2, 4, 5, 5⟩ .IDENT "S_1"
+def exLblChunk : List STopM :=
+  [script "S" [.ite (tk .IF "if") lp (cond (.flagBare z false "F")) rp lb [foo] rb [] .none, .label tLbl colon]]
+
+example : reportedOf (compileToks {} exO (printTopsM exLblChunk ++ [eofT])) =
+    some ⟨4, 4, 2, 2, 5, 5, "duplicate script label 'S_1'. Choose a unique label that won't clash with the auto-generated script labels"⟩ := by
+  decide
+example : compileToks {} exO (printTopsM exLblChunk ++ [eofT]) =
+    .error (.emit (.perr tLbl "duplicate script label 'S_1'. Choose a unique label that won't clash with the auto-generated script labels")) :=
+  by_catalogue (v := .label (.labelChunk tLbl "S_1")) (by decide) (by decide)
+
+/-! ### a label named like a text label: `script S { msgbox("Hi")  S_Text_0: }` -/
+def tLblT : Tok := tkp ⟨3, 2, 2, 3, 10, 10⟩ .IDENT "S_Text_0"
+def exLblText : List STopM := [script "S" [msgbox "Hi", .label tLblT colon]]
+
+example : reportedOf (compileToks {} exO (printTopsM exLblText ++ [eofT])) =
+    some ⟨3, 3, 2, 2, 10, 10, "duplicate text label 'S_Text_0'. Choose a unique label that won't clash with the auto-generated text labels"⟩ := by
+  decide
+example : compileToks {} exO (printTopsM exLblText ++ [eofT]) =
+    .error (.emit (.perr tLblT "duplicate text label 'S_Text_0'. Choose a unique label that won't clash with the auto-generated text labels")) :=
+  by_catalogue (v := .label (.labelText tLblT "S_Text_0")) (by decide) (by decide)
+
+/-! ### inside an inline body of a `mapscripts` statement, behind a script:
+`script A { foo }  mapscripts M { T { break } }` -/
+def exInline : List STopM :=
+  [script "A" [foo],
+   .mapscripts (tk .MAPSCRIPTS "mapscripts") .absent (tk .IDENT "M") lb [.inline (tk .IDENT "T") lb [.brk tBreak] rb] rb]
+
+example : reportedOf (compileToks {} exO (printTopsM exInline ++ [eofT])) =
+    some ⟨3, 3, 4, 4, 9, 9, "'break' statement outside of any break-able scope"⟩ := by decide
+example : compileToks {} exO (printTopsM exInline ++ [eofT]) =
+    .error (.parse (newParseError tBreak "'break' statement outside of any break-able scope")) :=
+  by_catalogue (v := .parse (.stmt (.breakOutside tBreak))) (by decide) (by decide)
+
+/-! ### the other two classes: a configuration error and an empty value -/
+
+/-- `script A { poryswitch (GAME) { RUBY: foo } }` without `-s`: configuration -/
+def tPs : Tok := tkp ⟨2, 2, 2, 2, 12, 12⟩ .PORYSWITCH "poryswitch"
+def exPory : List STopM :=
+  [script "A" [.pory tPs lp (tk .IDENT "GAME") rp lb [.colon (tk .IDENT "RUBY") colon foo] rb]]
+example : firstViolation? {} exO eofT exPory = some (.parse (.stmt (.noSwitches tPs))) ∧
+    (FViol.parse (.stmt (.noSwitches tPs))).cls = .configuration := by decide
+
+/-- `const E = ""  script A { foo }`: "missing value for const 'E'" — the empty-value error the task's list omits -/
+def exEmptyConst : List STopM :=
+  [.base (.const (tk .CONST "const") (tk .IDENT "E") (tk .ASSIGN "=") [tk .STRING ""]), script "A" [foo]]
+example : firstViolation? {} exO eofT exEmptyConst =
+      some (.parse (.constNoValue (tk .CONST "const") (tk .ASSIGN "=") (tk .IDENT "E"))) ∧
+    reportedOf (compileToks {} exO (printTopsM exEmptyConst ++ [eofT])) =
+      some ⟨0, 0, 0, 0, 0, 0, "missing value for const 'E'"⟩ := by decide
+
+/-! ### an accepted file: `accepted_clean` / `compile_by_catalogue` instantiated -/
+def exGood : List STopM :=
+  [script "A" [.whileInf (tk .WHILE "while") lb
+    [switchV [.case (tk .CASE "case") [tk .INT "1"] colon [.brk (tk .BREAK "break")],
+              .dflt (tk .DEFAULT "default") colon [msgbox "Hi", .cont (tk .CONTINUE "continue")]]] rb,
+    .label (tk .IDENT "Done") colon],
+   .base (.text (tk .TEXT "text") .absent (tk .IDENT "T") lb (.plain (tk .STRING "x")) rb)]
+
+example : firstViolation? {} exO eofT exGood = none := by decide
+example : ∃ L, compileToks {} exO (printTopsM exGood ++ [eofT]) = .ok L := by
+  have := compile_by_catalogue {} exO eofT rfl exGood (by decide)
+  rw [show firstViolation? {} exO eofT exGood = none by decide] at this
+  exact this
+example (L : List Line) (h : compileToks {} exO (printTopsM exGood ++ [eofT]) = .ok L) :
+    violTops {} [] exGood = none :=
+  (accepted_clean {} exO eofT rfl exGood (by decide) L h).1
+
+end Example
+
 #print axioms violation_rejected_file
 #print axioms violation_rejected
 #print axioms violation_rejected_source
@@ -562,5 +927,8 @@ theorem duplicate_case_first (env : Env) (pre post : List STopM) (kw : Tok) (md 
 #print axioms continue_outside_first
 #print axioms const_redefined_first
 #print axioms duplicate_case_first
+#print axioms firstViolation_iff
+#print axioms firstViolation_unique
+#print axioms compile_by_catalogue
 
 end Pory.C20c
